@@ -69,6 +69,13 @@ TARGETS = [
     ("solution two solutes", {"op": "solution", "name": "Q3", "solutes": ["NaCl", "amylase"], "solvent": "water", "aslist": True, "kwargs": {"quantity": ["1 g", "5 U"], "total_quantity": "20 mL"}}),
     ("solution_from", {"op": "solution_from", "src": ["V0", -1], "solute": "NaCl", "conc": "0.1 M", "solvent": "water", "q": "5 mL", "name": "F1"}),
     ("solution_from container solvent", {"op": "solution_from", "src": ["V0", -1], "solute": "NaCl", "conc": "0.1 M", "solvent": ["V1", -1], "q": "1 mL", "name": "F2"}),
+    # operations that have nothing to do - where "no need to copy" shortcuts live
+    ("fill_to container already at the level", {"op": "fill_to", "tgt": ["V1", -1], "solvent": "ethanol", "q": "1 mL"}),
+    ("fill_to slice already at the level", {"op": "fill_to", "tgt": ["P0", -1, ROW1], "solvent": "water", "q": "250 uL"}),
+    ("transfer of nothing", {"op": "transfer", "src": ["V0", -1], "dst": ["V1", -1], "q": "0 mL"}),
+    ("transfer of nothing into a slice", {"op": "transfer", "src": ["V0", -1], "dst": ["P0", -1, ROW1], "q": "0 uL"}),
+    ("remove what is not there", {"op": "remove", "tgt": ["V1", -1], "what": "NaCl"}),
+    ("remove from a slice what is not there", {"op": "remove", "tgt": ["P1", -1, {"k": "all"}], "what": "ethanol"}),
 ]
 N_CORPUS = len(TARGETS)
 
